@@ -45,6 +45,32 @@ type KSRun struct {
 // (names that are not path-clean - "//", "./", "../" - are documented as unsupported over HTTP)
 var instCatalogue = []string{"main", "a/b", "deep/er/nested/name", "team/ac", "x/cas/y", "blobs", "uploads/zz", "ünï/日本語", "with space", "Capital-and_under.dot", "ac", "cas"}
 
+// families of different instance names that are easy to confuse: long common prefixes (beyond 64, 128,
+// 256 and 1024 bytes), one a prefix of the other, letter case, moved separators, composed / decomposed unicode
+var instFamilies = func() [][]string {
+	long := func(n int, tails ...string) []string {
+		p := "projects/acme-build-infra/locations/europe-west1/instances/default_instance/branches/"
+		for len(p) < n {
+			p += "segment-of-a-rather-long-instance-name/"
+		}
+		var out []string
+		for _, t := range tails {
+			out = append(out, p+t)
+		}
+		return out
+	}
+	return [][]string{
+		long(70, "main", "mainline-2", "m", "main/x"),
+		long(130, "a", "b", "ab"),
+		long(260, "one", "two"),
+		long(1030, "x", "y"),
+		{"a", "a/b", "a/b/c", "a/bc", "ab/c"},
+		{"Team/Main", "team/main", "TEAM/MAIN"},
+		{"caf\u00e9/build", "cafe\u0301/build", "cafe/build"},
+		{"x/ac/y", "x/ac", "ac/y", "x/y"},
+	}
+}()
+
 func instPath(inst string) string {
 	if inst == "" {
 		return ""
@@ -82,6 +108,13 @@ func RunKeyspace(finals []KSFinal, seed int64, stride int) (runs []KSRun, viols 
 		a := rng.Intn(len(instCatalogue))
 		b := (a + 1 + rng.Intn(len(instCatalogue)-1)) % len(instCatalogue)
 		names := map[string]string{"": "", "I1": instCatalogue[a], "I2": instCatalogue[b]}
+		if rng.Intn(2) == 0 {
+			// two different names that are easy to confuse
+			fam := instFamilies[rng.Intn(len(instFamilies))]
+			x := rng.Intn(len(fam))
+			y := (x + 1 + rng.Intn(len(fam)-1)) % len(fam)
+			names["I1"], names["I2"] = fam[x], fam[y]
+		}
 		D := drv.GenData(rng, 40+rng.Intn(200), rng.Intn(3))
 		h := drv.MkBlob(D).Hash
 		bad := func(fm string, x ...any) {
